@@ -13,8 +13,8 @@ from ..sym import Le, Lt, Eq, Holds, v_min, v_max, v_abs, v_lt, v_le, v_eq, v_an
 
 P = 'C12'
 
-NA = ('eigen_sym33_non_unit / eigen_sym33_unit themselves (rational functions of degree ~8 in six variables with a dozen '
-      'data-dependent switches): replaced by their contract, not verified',
+NA = ('eigen_sym33_non_unit / eigen_sym33_unit on general symmetric tensors (rational functions of degree ~8 in six variables with a dozen '
+      'data-dependent switches): replaced by their contract in O5/O6; the real routine is decided only on the low-dimensional families of O7',
       'pow_symm / _pow_relative_difference accuracy', 'right_polar_decomposition',
       'LinAlg.sqrtm / sqrtm_dbp / logm_iss / log_pade_pf (while loops over LU-based inverses)',
       'equivalence of a single compiled call and vmap/jit batches (JAX transformation semantics are part of the trusted base)',
@@ -32,6 +32,15 @@ DESIGNED_NOT_REGISTERED = [
      'eigenbasis inside eigenspaces: 9+9+4 unknowns, not attempted; for the stub pair (lam, Q V) it is immediate from O5b structure.primal_is_V_f_lam_Vt'),
     ('O4 Taylor branch of _relative_log_difference', 'truncation-error bound against log (uninterpreted): needs analytic remainder axioms; function is unused by the library'),
     ('O3 strict monotonicity of the Pade approximant', 'registered in the thorough tier only (27 s alone)'),
+    ('O7 family diag(a,a,b) (exactly repeated eigenvalue, 2 parameters; also the 1-parameter lines diag(1,1,t), diag(t,t,1))',
+     'unknown @60-200 s monolithically and with cut + pruning: deciding |rr| = 1 needs sqrt(1/d^2) = 1/|d| inside the Pade argument; 11 of 24 branch '
+     'conditions stay undecided'),
+    ('O7 family diag(a,b,c) (3 parameters; also the line diag(-1,t,1))', 'unknown @120 s: the Pade approximant is evaluated at a symbolic argument, the '
+     'tolerance proof needs error propagation through the deflation'),
+    ('O7 in-plane block [[a,g,0],[g,b,0],[0,0,c]] with a != b or c != a (3-4 parameters), and g*E + diag(0,0,c)', 'unknown @120-200 s (same reason); '
+     'registered instead: a*I + g*E for the three coordinate planes and a*I + g*diag(-1,0,1), all sign patterns, incl. nearly isotropic members'),
+    ('O7 monolithic queries on eigen_sym33_unit without the normalisation cut for 1-parameter families other than s*I', 'erratic (14 s to unknown @120 s '
+     'depending on the goal grouping); replaced by the cut-lemma form, which discharges in milliseconds'),
 ]
 
 def TM():
